@@ -45,7 +45,7 @@
     counts are not part of the model (as in Mgr/Oom.v). *)
 
 From Coq Require Import List NArith PArith Bool Arith FMapPositive.
-From OxiVerif Require Import DD.Table DD.Build DD.Apply DD.Pick Mgr.Oom.
+From OxiVerif Require Import DD.Table DD.Build DD.Apply DD.ApplyBcdd DD.ZbddOps DD.Pick Mgr.Oom.
 From OxiVerif Require Import Mgr.OomGen.
 Import ListNotations.
 
@@ -274,6 +274,16 @@ Definition pick_dd_unc (kind : pkind) (s : snap) (m : nat -> bool) (e : edge) :=
   prun_u unit (mask_choice m) kind s tt (PKDd e).
 Definition pick_dd_set_unc (kind : pkind) (s : snap) (e set : edge) :=
   prun_u unit (mask_choice (fun _ => false)) kind s tt (PKSet e set).
+
+(** the invariant of the kind, as the checker the C14 driver evaluates on every
+    snapshot ([bdd_ok_b] of DD/Apply.v, [bcok_b] of DD/ApplyBcdd.v, [zbdd_ok_b] of
+    DD/ZbddOps.v) *)
+Definition pinv_b (kind : pkind) (s : snap) : bool :=
+  match kind with
+  | PBdd => Apply.bdd_ok_b s
+  | PBcdd => ApplyBcdd.bcok_b s
+  | PZbdd => ZbddOps.zbdd_ok_b s
+  end.
 
 (** the hypothesis of the theorems on a call, as a checker for real snapshots:
     the operands are valid edges (untagged for BDD / ZBDD), and the literal set of
